@@ -1010,3 +1010,39 @@ def operand_cli(w, repo):
     if dev:
         return True, "; ".join(dev[:3])
     return (False if toks else None), "the witness and %d neighbouring command lines behave like the reference natively" % (len(cases) - 1)
+
+
+def files0_cli(w, repo):
+    """exact: the witness command line with the model's files on disk; the starting points walked are read off -print"""
+    import sys
+    sys.path.insert(0, os.path.join(os.path.dirname(os.path.dirname(os.path.abspath(__file__))), "mirsym"))
+    if not build(repo):
+        return None, "build failed"
+    files = {"F_ab": b"a\0./b/\0", "F_dash_nl": b"-n\0x\ny\0", "F_hole": b"a\0\0b\0", "F_empty": b"", "F_nofinal": b"a\0b", "F_onlynul": b"\0"}
+    toks = w.get("tokens") or ["-files0-from", "F_hole"]
+    with Sandbox() as d:
+        for n, c in files.items():
+            open(os.path.join(d, n), "wb").write(c)
+        for n in ("a", "-n", "x\ny", "b"):
+            open(os.path.join(d, n), "w").close()
+        os.makedirs(os.path.join(d, "b2")); 
+        cases = [toks] + [["-files0-from", f] for f in files] + [["a", "-files0-from", "F_ab"], ["-files0-from", "F_missing"]]
+        dev = []
+        for t in cases:
+            rc, out, err = run([find_bin(repo)] + list(t) + ([] if any(x in t for x in ("-print", "-quit")) else ["-maxdepth", "0", "-print0"]), cwd=d)
+            f = t[t.index("-files0-from") + 1] if "-files0-from" in t and t.index("-files0-from") + 1 < len(t) else None
+            if f in files and t[0] == "-files0-from" and len(t) == 2:
+                names = [x.decode() for x in files[f].split(b"\0")]
+                if names and names[-1] == "":
+                    names = names[:-1]
+                want = [x for x in names if x]
+                got = [x.decode() for x in out.split(b"\0")[:-1]]
+                got = [g for g in got]
+                if [g.rstrip("/") for g in got if os.path.lexists(os.path.join(d, g))] != [x.rstrip("/") for x in want if os.path.lexists(os.path.join(d, x))]:
+                    dev.append("find %s: walked %r, expected %r" % (" ".join(t), got, want))
+            elif f == "F_missing" or (t[0] != "-files0-from" and "-files0-from" in t and t[0] not in (".", "-L", "--")):
+                if rc == 0:
+                    dev.append("find %s: accepted (rc=0)" % " ".join(t))
+    if dev:
+        return True, "; ".join(dev[:3])
+    return None, "-files0-from behaves like the reference for the files tried"
